@@ -65,6 +65,7 @@ Cmps5 == {Cmp(Col("", "a"), op, Lit(IntV(n))) : op \in Ops, n \in {1, 2}}
          \cup {Cmp(Col("t5", "a"), "<", Col("", "g"))}
 Core5 == {Cmp(Col("", "a"), "=", Lit(IntV(1))), Cmp(Col("", "s"), ">", Lit(StrV(<<A>>))), Cmp(Col("", "c"), "=", Lit(BoolV(TRUE))),
           Cmp(Col("", "a"), ">=", Lit(IntV(2))), Cmp(Col("", "g"), "!=", Lit(IntV(6)))}
+Core4 == {Cmp(Col("", "a"), "=", Lit(IntV(1))), Cmp(Col("", "s"), ">", Lit(StrV(<<A>>))), Cmp(Col("", "c"), "=", Lit(BoolV(TRUE))), Cmp(Col("", "g"), "!=", Lit(IntV(6)))}
 \* comparisons without a column (what query builders write): true and false
 Const5 == {Cmp(Lit(IntV(1)), "=", Lit(IntV(1))), Cmp(Lit(IntV(1)), "=", Lit(IntV(2)))}
 Wheres5 == {<<>>} \cup {<< <<c>> >> : c \in Cmps5}
@@ -76,6 +77,10 @@ Wheres5 == {<<>>} \cup {<< <<c>> >> : c \in Cmps5}
            \cup {<< <<c>>, <<d, e>> >> : c \in Core5, d \in Core5, e \in Core5}      \* c OR d AND e
            \cup {<< <<c, d, e>> >> : c \in Core5, d \in Core5, e \in Core5}
            \cup {<< <<c>>, <<d>>, <<e>> >> : c \in Core5, d \in Core5, e \in Core5}
+           \* four comparisons: a run of three ANDs before / after an OR, two and two
+           \cup {<< <<c, d, e>>, <<g>> >> : c \in Core4, d \in Core4, e \in Core4, g \in Core4}
+           \cup {<< <<g>>, <<c, d, e>> >> : c \in Core4, d \in Core4, e \in Core4, g \in Core4}
+           \cup {<< <<c, d>>, <<e, g>> >> : c \in Core4, d \in Core4, e \in Core4, g \in Core4}
 \* select lists with the ORDER BY clauses that may follow them
 ListOrders5 ==
   {[list |-> <<Star>>, order |-> o] :
